@@ -1,4 +1,4 @@
-#!/usr/bin/env python3
+#!/usr/bin/env python3-vt
 """Validate MANIFEST.json and evidence/*.json against the schemas in /root/.vp."""
 import json, sys, glob
 try:
